@@ -248,8 +248,9 @@ def ref_strings(f, a):
     if f == '>=':
         return codes(a[0]) >= codes(a[1])
     if f == 'escapeRegex':
-        # docstring: "all the characters except ASCII letters, numbers, and '_' escaped"
-        return ''.join(c if c in ESCAPE_KEEPS else '\\' + c for c in a[0])
+        # docstring: "all the characters that have a special meaning in a regular expression escaped
+        # (as re.escape does)" - the special characters of Python's re syntax, written out here
+        return ''.join('\\' + c if c in '()[]{}?*+-|^$\\.&~# \t\n\r\x0b\x0c' else c for c in a[0])
     raise KeyError(f)
 
 
